@@ -188,6 +188,428 @@ def vf1(ctx, c):
         c.undecided("BinaryFile.add_file", "shape-not-recognised", "", repo.loc(bf, bf.node))
 
 
+from ..concrete import Obj as _Obj, ClsRef as _ClsRef, Desc as _Desc, run_concrete as _run_concrete
+
+
+def vf5(ctx, c):
+    """VF-5 the save pipeline evaluated for each container kind: a fresh container of that kind, add_files(the whole list), its buffer handed to
+    the source file, the source file written - in that order; add_coco_file records the file; open loads the files already stored."""
+    from ..inline import flatten
+    repo = ctx.repo
+    fn = repo.method(VF, "save_virtual_file")
+    where = repo.loc(fn, fn.node)
+    flat = flatten(repo, fn, depth=3)
+    params = [p for p in fn.params if p != "self"]
+    ap = params[0] if params else "append_mode"
+    for kind, kcls in KINDS.items():
+        kv = ctx.env.get("VirtualFileType.%s" % kind)
+        if kv is None:
+            c.undecided("save_virtual_file:%s" % kind, "kind-constant-not-foldable", "", where)
+            continue
+        env = dict(ctx.env)
+        for cn in set(KINDS.values()) | {"FileExistsError", "VirtualFileValidationError"}:
+            env[cn] = _ClsRef(cn)
+        # module-level tables that mention the container classes
+        from ..consteval import fold as _fold, NotConst as _NC
+        for nm, node_ in fn.module.assigns.items():
+            if nm not in env:
+                try:
+                    env[nm] = _fold(node_, env)
+                except _NC:
+                    pass
+        for nm, node_ in (fn.cls.assigns.items() if fn.cls else []):
+            try:
+                env.setdefault("self." + nm, _fold(node_, env))
+                env.setdefault("%s.%s" % (fn.cls.name, nm), env["self." + nm])
+            except _NC:
+                pass
+        env.update({"self.virtual_file_type": kv, "self.file_exists": False, ap: False, "self.coco_file_list": _Desc("self.coco_file_list")})
+        events, notes = [], []
+        try:
+            end = _run_concrete(body_without_doc(flat), env, events, notes)
+        except RecursionError:
+            notes.append("recursion")
+            end = None
+        site = "save_virtual_file:%s:pipeline" % kind
+        obj = "<%s object>" % kcls
+        news = [i for i, e in enumerate(events) if e[0] == "new" and e[1] == kcls]
+        other_new = [e[1] for e in events if e[0] == "new" and e[1] in KINDS.values() and e[1] != kcls]
+        adds = [i for i, e in enumerate(events) if e[0] == "call" and e[1] == obj and e[2] == "add_files"]
+        sets = [i for i, e in enumerate(events) if e[0] == "call" and e[2] == "set_buffer" and "source_file" in e[1]]
+        writes = [i for i, e in enumerate(events) if e[0] == "call" and e[2] == "write_file" and "source_file" in e[1]]
+        problems = []
+        if end and end.startswith("raise"):
+            problems.append("it ends in %s for a target that does not exist" % end)
+        if not news:
+            problems.append("no %s is constructed%s" % (kcls, " (but %s is)" % other_new[0] if other_new else ""))
+        elif events[news[0]][2]:
+            problems.append("the container is constructed from %s, not empty" % events[news[0]][2])
+        if not adds:
+            problems.append("the files are never added to the %s" % kcls)
+        elif events[adds[0]][3] != ["self.coco_file_list"]:
+            problems.append("add_files receives %s instead of the whole file list" % events[adds[0]][3])
+        if not sets:
+            problems.append("the container's buffer is never handed to the source file")
+        elif events[sets[-1]][3] != ["%s.get_buffer()" % obj]:
+            problems.append("set_buffer receives %s instead of the %s buffer" % (events[sets[-1]][3], kcls))
+        if not writes:
+            problems.append("the source file is never written")
+        if adds and sets and writes and not (adds[0] < sets[-1] < writes[-1]):
+            problems.append("the steps run in the order %s" % [e[2] for e in events if e[0] == "call" and e[2] in ("add_files", "set_buffer", "write_file")])
+        if not problems:
+            c.ok(site, "fresh %s, add_files(whole list), set_buffer(its buffer), write_file" % kcls, where)
+        elif notes:
+            c.undecided(site, "pipeline-not-evaluable", "%s; not evaluated: %s" % (problems[0], "; ".join(sorted(set(notes)))[:100]), where)
+        else:
+            c.finding(site, problems[0], "VirtualFile.save_virtual_file, evaluated for a new %s target: %s (calls made: %s)"
+                      % (kind, "; ".join(problems), [("%s.%s" % (e[1], e[2])) for e in events if e[0] == "call"][:8]), where)
+    # add_coco_file records the file
+    ac = repo.method(VF, "add_coco_file")
+    p = [x for x in ac.params if x != "self"][0]
+    env = dict(ctx.env)
+    env.update({"self.coco_file_list": _Desc("self.coco_file_list"), p: _Desc("the-file")})
+    events, notes = [], []
+    _run_concrete(body_without_doc(flatten(repo, ac, depth=2)), env, events, notes)
+    rec = [e for e in events if e[0] == "call" and "coco_file_list" in e[1] and e[2] in ("append", "extend", "insert")]
+    aug = [n for n in ast.walk(ac.node) if isinstance(n, (ast.AugAssign, ast.Assign)) and "coco_file_list" in U(n)]
+    if rec or aug:
+        c.ok("add_coco_file:records", "the file is put into the list", repo.loc(ac, ac.node))
+    elif notes:
+        c.undecided("add_coco_file:records", "not-evaluable", "; ".join(notes)[:80], repo.loc(ac, ac.node))
+    else:
+        c.finding("add_coco_file:records", "the file is not put into the list", "VirtualFile.add_coco_file does not add its argument to coco_file_list: the image is saved without the file", repo.loc(ac, ac.node))
+    # open_virtual_file loads what is stored
+    ov = repo.method(VF, "open_virtual_file")
+    ovf = flatten(repo, ov, depth=2, only={m_ for m_ in repo.cls(VF).methods if m_ not in ("get_coco_files",)})
+    t = U(ovf)
+    wo = repo.loc(ov, ov.node)
+    if "get_coco_files" not in t:
+        c.finding("open_virtual_file:loads", "the stored files are not listed", "open_virtual_file never calls get_coco_files: the files already in the target are not loaded, so "
+                  "saving with --append writes an image holding only the new file", wo)
+    elif not re.search(r"self\.coco_file_list(, \w+)? = |self\.coco_file_list\.(extend|append)|self\.coco_file_list \+=", t):
+        c.finding("open_virtual_file:loads", "the listing is not stored in coco_file_list", "open_virtual_file lists the stored files but does not keep them in coco_file_list: "
+                  "saving with --append drops them", wo)
+    elif not re.search(r"source_file\.read_file\(\)", t):
+        c.finding("open_virtual_file:loads", "the target is never read", "open_virtual_file does not read the existing target before listing its files: the listing is that of an empty buffer", wo)
+    else:
+        idx_r = t.index("read_file()")
+        idx_g = t.index("get_coco_files")
+        c.check(idx_r < idx_g, "open_virtual_file:loads", "reads the target, lists its files, keeps them", "files are listed before the target is read",
+                "open_virtual_file lists the files before reading the target", wo)
+
+
+def _module_resolver(repo, rel):
+    def resolver(name):
+        try:
+            return repo.func(rel, name).node
+        except Exception:
+            return None
+    return resolver
+
+
+def cli4(ctx, c):
+    """CLI-4 file_util.main evaluated for every conversion switch x --files selection x --append: the target container is of the switch's kind, is
+    opened, receives exactly the selected files of the source listing, once each and in listing order, and is saved once with the --append flag."""
+    from ..inline import flatten
+    from ..concrete import Obj, ClsRef, Desc, run_concrete
+    repo = ctx.repo
+    fn0 = repo.func("file_util.py", "main")
+    where = repo.loc(fn0, fn0.node)
+    flat = flatten(repo, fn0, depth=2)
+    names = ["ALPHA   ", "beta", "GAMMA\x00\x00\x00"]
+    n_eval = 0
+    for sw, kind in (("to_cas", "CASSETTE"), ("to_dsk", "DISK"), ("to_bin", "BINARY")):
+        for files, want_idx in ((None, [0, 1, 2]), (["beta"], [1]), (["GAMMA", "alpha"], [0, 2]), (["nosuch"], [])):
+            for append in (False, True):
+                listing = []
+                for i_, nm in enumerate(names if sw != "to_bin" else names[1:2]):
+                    o = Obj("CoCoFile", label="<file %d>" % i_)
+                    o.attrs["name"] = nm
+                    listing.append(o)
+                if sw == "to_bin":
+                    want = [0] if (files is None or files == ["beta"]) else []
+                else:
+                    want = want_idx
+                env = dict(ctx.env)
+                for cn in ("VirtualFile", "SourceFile"):
+                    env[cn] = ClsRef(cn)
+                env.update({"args.host_filename": "src.img", "args.list": False, "args.to_cas": None, "args.to_dsk": None, "args.to_bin": None,
+                            "args.files": files, "args.append": append})
+                env["args.%s" % sw] = "target.img"
+                state = {}
+
+                def listing_hook(r, avals, _l=listing, _s=state):
+                    src = _s.setdefault("src", r)
+                    return list(_l) if r is src else Desc("%r.list_files()" % r)
+                events, notes = [], []
+                end = run_concrete(body_without_doc(flat), env, events, notes, hooks={("*", "list_files"): listing_hook}, resolver=None)
+                n_eval += 1
+                site = "file_util --%s%s%s" % (sw, "" if files is None else " --files " + " ".join(files), " --append" if append else "")
+                vfs = [e[3] for e in events if e[0] == "new" and e[1] == "VirtualFile"]
+                target = next((o for o in vfs if any(isinstance(a, Obj) and "target.img" in [x for x in getattr(a, "args", [])] for a in getattr(o, "args", []))), None)
+                problems = []
+                if end and end.startswith("raise"):
+                    problems.append("the run ends in %s" % end)
+                if target is None:
+                    problems.append("no VirtualFile is built on the path given with --%s" % sw)
+                else:
+                    kindv = ctx.env.get("VirtualFileType.%s" % kind)
+                    got_kind = [v for v in list(getattr(target, "args", [])) + list(target.attrs.values()) if v in [ctx.env.get("VirtualFileType.%s" % k) for k in KINDS]]
+                    if got_kind[:1] != [kindv]:
+                        problems.append("the target of --%s is built as container kind %s" % (sw, got_kind[:1]))
+                if not problems:
+                    # identity-based call sequence on the target
+                    adds, saves, opens = [], [], 0
+                    for e in events:
+                        if e[0] == "call" and len(e) > 6 and e[6] is target:
+                            if e[2] == "add_coco_file":
+                                adds.append(e[4][0] if e[4] else None)
+                            elif e[2] == "save_virtual_file":
+                                saves.append(e)
+                            elif e[2] == "open_virtual_file":
+                                opens += 1
+                    first_add = next((i for i, e in enumerate(events) if e[0] == "call" and len(e) > 6 and e[6] is target and e[2] == "add_coco_file"), None)
+                    first_open = next((i for i, e in enumerate(events) if e[0] == "call" and len(e) > 6 and e[6] is target and e[2] == "open_virtual_file"), None)
+                    if opens != 1 or (first_add is not None and first_open is not None and first_open > first_add):
+                        problems.append("the target is opened %d time(s)%s" % (opens, " after files were added" if opens else ""))
+                    want_objs = [listing[i] for i in want]
+                    if [id(x) for x in adds] != [id(x) for x in want_objs]:
+                        problems.append("files added: %s; selected by the switches: %s" % ([show_(x) for x in adds], [show_(x) for x in want_objs]))
+                    if len(saves) != 1:
+                        problems.append("save_virtual_file is called %d time(s)" % len(saves))
+                    else:
+                        am = saves[0][5].get("append_mode", saves[0][4][0] if saves[0][4] else None)
+                        if am is not append:
+                            problems.append("save_virtual_file(append_mode=%r) with --append %s" % (am, "given" if append else "absent"))
+                        last_add = max([i for i, e in enumerate(events) if e[0] == "call" and len(e) > 6 and e[6] is target and e[2] == "add_coco_file"] or [-1])
+                        if events.index(saves[0]) < last_add:
+                            problems.append("the image is saved before all files are added")
+                if not problems:
+                    c.ok(site, "target of kind %s, opened, %d file(s) added in listing order, saved once" % (kind, len(want)), where)
+                elif notes:
+                    c.undecided(site, "not-evaluable", "%s; not evaluated: %s" % (problems[0][:80], "; ".join(sorted(set(notes)))[:100]), where)
+                else:
+                    c.finding("file_util --%s:%s" % (sw, "all files" if files is None else "--files"), problems[0][:120],
+                              "%s: %s" % (site, "; ".join(problems)), where)
+    c.ok("file_util.main", "%d configurations evaluated" % n_eval, where, nontrivial=False)
+
+
+def cli5(ctx, c):
+    """CLI-5 assembler.main evaluated for every output switch x (NAM present / absent) x (--name given / absent) x --append: the CoCoFile carries the
+    program's name (else --name), origin, image; each switch builds its own kind of container on its own path, opens it, adds that file, saves
+    once with the --append flag; without any name no cassette or disk file is made."""
+    from ..inline import flatten
+    from ..concrete import Obj, ClsRef, Desc, run_concrete, show
+    repo = ctx.repo
+    fn0 = repo.func("assembler.py", "main")
+    where = repo.loc(fn0, fn0.node)
+    flat = flatten(repo, fn0, depth=2)
+    n_eval = 0
+    for sw, kind in (("to_bin", "BINARY"), ("to_cas", "CASSETTE"), ("to_dsk", "DISK")):
+        for pname in ("PROG", None):
+            for cname in (None, "cli"):
+                for append in (False, True):
+                    env = dict(ctx.env)
+                    for cn in ("VirtualFile", "SourceFile", "Program", "CoCoFile"):
+                        env[cn] = ClsRef(cn)
+                    env.update({"args.filename": "x.asm", "args.symbols": False, "args.print": False, "args.to_bin": None, "args.to_cas": None, "args.to_dsk": None,
+                                "args.name": cname, "args.append": append, "args.width": None})
+                    env["args.%s" % sw] = "target.img"
+                    events, notes = [], []
+                    end = run_concrete(body_without_doc(flat), env, events, notes, hooks={("new", "Program"): {"name": pname}})
+                    n_eval += 1
+                    eff = pname or cname
+                    site = "assembler --%s%s%s%s" % (sw, " (NAM %s)" % pname if pname else " (no NAM)", " --name %s" % cname if cname else "", " --append" if append else "")
+                    problems = []
+                    files = [e[3] for e in events if e[0] == "new" and e[1] == "CoCoFile"]
+                    vfs = [e[3] for e in events if e[0] == "new" and e[1] == "VirtualFile"]
+                    target = next((o for o in vfs if any(isinstance(a, Obj) and "target.img" in getattr(a, "args", []) for a in getattr(o, "args", []))), None)
+                    if end and end.startswith("raise"):
+                        problems.append("the run ends in %s" % end)
+                    if len(files) != 1:
+                        problems.append("%d CoCoFile objects are built" % len(files))
+                    else:
+                        f = files[0]
+                        a = f.attrs
+                        if a.get("name") != eff:
+                            problems.append("the file is named %r; NAM gives %r and --name %r" % (a.get("name"), pname, cname))
+                        prog = "<Program object>"
+                        if show(a.get("load_addr")) != prog + ".origin":
+                            problems.append("load address is %s, not the program's origin" % show(a.get("load_addr")))
+                        if show(a.get("exec_addr")) not in (prog + ".origin", prog + ".exec_addr", prog + ".entry"):
+                            problems.append("entry address is %s, not the program's origin / END address" % show(a.get("exec_addr")))
+                        if show(a.get("data")) != prog + ".get_binary_array()":
+                            problems.append("data is %s, not the assembled image" % show(a.get("data")))
+                        if show(a.get("type")) not in ("NumericValue(2)",):
+                            problems.append("file type is %s, a machine-language file is type 2" % show(a.get("type")))
+                        if show(a.get("data_type")) not in ("NumericValue(0)",):
+                            problems.append("data type is %s, binary is 0" % show(a.get("data_type")))
+                    # the source named on the command line is read, and what was read is what is assembled
+                    src = next((e[3] for e in events if e[0] == "new" and e[1] == "SourceFile" and "x.asm" in getattr(e[3], "args", [])), None)
+                    reads = [i for i, e in enumerate(events) if e[0] == "call" and len(e) > 6 and e[6] is src and e[2] == "read_file"]
+                    procs = [i for i, e in enumerate(events) if e[0] == "call" and e[1] == "<Program object>" and e[2] == "process"]
+                    if src is None:
+                        problems.append("no SourceFile is built on the file named on the command line")
+                    elif not procs:
+                        problems.append("the program is never processed")
+                    elif not reads or reads[0] > procs[0]:
+                        problems.append("the source file is not read before it is assembled")
+                    elif events[procs[0]][3] != ["<SourceFile object>.get_buffer()"]:
+                        problems.append("Program.process receives %s, not the lines read from the source file" % events[procs[0]][3])
+                    expect_target = (kind == "BINARY") or bool(eff)
+                    if not expect_target:
+                        if vfs:
+                            problems.append("a %s container is built although the program has no name" % kind)
+                    elif target is None:
+                        problems.append("no VirtualFile is built on the path given with --%s" % sw)
+                    else:
+                        kinds_all = [ctx.env.get("VirtualFileType.%s" % k) for k in KINDS]
+                        got_kind = [v for v in list(getattr(target, "args", [])) + list(target.attrs.values()) if v in kinds_all and v is not None]
+                        if got_kind[:1] != [ctx.env.get("VirtualFileType.%s" % kind)]:
+                            problems.append("the target of --%s is built as container kind %s" % (sw, got_kind[:1]))
+                        seq = [e for e in events if e[0] == "call" and len(e) > 6 and e[6] is target]
+                        meths = [e[2] for e in seq]
+                        if meths != ["open_virtual_file", "add_coco_file", "save_virtual_file"]:
+                            problems.append("the target goes through %s; it must be opened, given the file, saved" % meths)
+                        else:
+                            if not (seq[1][4] and files and seq[1][4][0] is files[0]):
+                                problems.append("add_coco_file receives %s, not the file built from the program" % seq[1][3])
+                            am = seq[2][5].get("append_mode", seq[2][4][0] if seq[2][4] else None)
+                            if am is not append:
+                                problems.append("save_virtual_file(append_mode=%r) with --append %s" % (am, "given" if append else "absent"))
+                        if len(vfs) != 1:
+                            problems.append("%d containers are built for one output switch" % len(vfs))
+                    if not problems:
+                        c.ok(site, "file from the program; %s" % ("%s target opened, file added, saved" % kind if expect_target else "no container without a name"), where)
+                    elif notes:
+                        c.undecided(site, "not-evaluable", "%s; not evaluated: %s" % (problems[0][:80], "; ".join(sorted(set(notes)))[:100]), where)
+                    else:
+                        c.finding("assembler --%s:%s" % (sw, "named" if eff else "unnamed"), problems[0][:120], "%s: %s" % (site, "; ".join(problems)), where)
+    c.ok("assembler.main", "%d configurations evaluated" % n_eval, where, nontrivial=False)
+
+
+def vf9(ctx, c):
+    """VF-9 host input / output of SourceFile: a binary target is written whole, to the file it names, in binary mode; reading gives the bytes one
+    per element; read_file / write_file go to the routine of their file type with the object's own name and buffer."""
+    from ..concrete import Obj, ClsRef, Desc, run_concrete, show
+    repo = ctx.repo
+    if not repo.has_cls("SourceFile"):
+        c.undecided("SourceFile", "class-not-found", "")
+        return
+    C = repo.cls("SourceFile")
+
+    def resolver(name):
+        f_ = repo.lookup(C, name)
+        return f_.node if f_ is not None else None
+    # write_binary_contents
+    wb = C.methods.get("write_binary_contents")
+    if wb is not None:
+        where = repo.loc(wb, wb.node)
+        ps = [p for p in wb.params if p not in ("self", "cls")]
+        env = dict(ctx.env)
+        env.update({ps[0]: Desc("FILENAME"), ps[1]: Desc("BUFFER")})
+        events, notes = [], []
+        run_concrete(body_without_doc(wb.node), env, events, notes)
+        opened = [e[3] for e in events if e[0] == "new" and e[1] == "file"]
+        writes = [e for e in events if e[0] == "call" and e[2] in ("write", "writelines") and isinstance(e[6], Obj) and e[6].cls == "file"]
+        problems = []
+        if not opened:
+            problems.append("no file is opened")
+        else:
+            o = opened[0]
+            mode = o.args[1] if len(o.args) > 1 else o.attrs.get("mode", "r")
+            if show(o.args[0]) != "FILENAME":
+                problems.append("the file opened is %s, not the name given" % show(o.args[0]))
+            if not (isinstance(mode, str) and "w" in mode and "b" in mode and "a" not in mode):
+                problems.append("the file is opened in mode %r; an image is written whole, in binary (wb)" % (mode,))
+        if not writes:
+            problems.append("nothing is written to the file")
+        elif writes[0][3] not in (["bytearray(BUFFER)"], ["bytes(BUFFER)"], ["bytes(bytearray(BUFFER))"]):
+            problems.append("what is written is %s, not the bytes of the buffer" % writes[0][3])
+        if len(writes) > 1:
+            problems.append("%d writes" % len(writes))
+        if not problems:
+            c.ok("SourceFile.write_binary_contents", "opens the named file 'wb' and writes the whole buffer once", where)
+        elif notes:
+            c.undecided("SourceFile.write_binary_contents", "not-evaluable", "%s; %s" % (problems[0], "; ".join(notes))[:140], where)
+        else:
+            c.finding("SourceFile.write_binary_contents", problems[0][:100], "SourceFile.write_binary_contents: %s - the host file then does not hold the image that was built" % "; ".join(problems), where)
+    # read_binary_contents: one list element per byte
+    rb = C.methods.get("read_binary_contents")
+    if rb is not None:
+        where = repo.loc(rb, rb.node)
+        reads = [x for x in ast.walk(rb.node) if isinstance(x, ast.Call) and isinstance(x.func, ast.Attribute) and x.func.attr == "read"]
+        fb = [x for x in ast.walk(rb.node) if isinstance(x, ast.Call) and U(x.func) == "int.from_bytes"]
+        sizes = [try_fold(x.args[0], ctx.env) if x.args else None for x in reads]
+        opens = [x for x in ast.walk(rb.node) if isinstance(x, ast.Call) and U(x.func) == "open"]
+        modes = [try_fold(x.args[1], ctx.env) if len(x.args) > 1 else next((try_fold(k.value, ctx.env) for k in x.keywords if k.arg == "mode"), "r") for x in opens]
+        if opens and any(isinstance(m_, str) and "b" not in m_ for m_ in modes):
+            c.finding("SourceFile.read_binary_contents:mode", "opened in mode %r" % (modes[0],), "read_binary_contents opens the image in text mode %r: bytes are decoded and line ends translated" % (modes[0],), where)
+        elif opens:
+            c.ok("SourceFile.read_binary_contents:mode", "binary mode", where)
+        if fb and reads:
+            if all(k == 1 for k in sizes):
+                c.ok("SourceFile.read_binary_contents", "one byte per element (read(1) + int.from_bytes)", where)
+            elif any(isinstance(k, int) and k != 1 for k in sizes):
+                bad = next(k for k in sizes if isinstance(k, int) and k != 1)
+                c.finding("SourceFile.read_binary_contents", "reads %d byte(s) per element" % bad,
+                          "read_binary_contents turns each read(%d) into one list element with int.from_bytes: %s" % (bad, "the loop never ends / nothing is read" if bad == 0 else
+                                                                                                                   "two bytes are fused into one element, the buffer is half as long and holds values above 255"), where)
+            else:
+                c.undecided("SourceFile.read_binary_contents", "read-size-not-constant", str(sizes), where)
+        elif reads and not fb and all(not x.args for x in reads):
+            c.ok("SourceFile.read_binary_contents", "whole file read at once", where)
+        elif not reads:
+            c.finding("SourceFile.read_binary_contents", "the file is never read", "read_binary_contents has no read call: an existing image is seen as empty", where)
+        # the loop advances: a read inside the loop
+        for lp in [x for x in ast.walk(rb.node) if isinstance(x, ast.While)]:
+            inner = [x for x in ast.walk(lp) if isinstance(x, ast.Call) and isinstance(x.func, ast.Attribute) and x.func.attr == "read" and x is not lp.test]
+            inner = [x for x in inner if not any(x is y for y in ast.walk(lp.test))]
+            walrus = any(isinstance(x, ast.NamedExpr) for x in ast.walk(lp.test))
+            if not inner and not walrus and not any(isinstance(x, (ast.Break, ast.Return)) for x in ast.walk(lp)):
+                c.finding("SourceFile.read_binary_contents:loop", "the loop never reads the next byte", "read_binary_contents loops on the byte read but never reads another: it does not terminate", where)
+            appended = [x for x in ast.walk(lp) if isinstance(x, ast.Call) and isinstance(x.func, ast.Attribute) and x.func.attr in ("append", "extend")]
+            if inner and not appended and not any(isinstance(x, ast.AugAssign) for x in ast.walk(lp)):
+                c.finding("SourceFile.read_binary_contents:loop", "the bytes read are not kept", "read_binary_contents reads the file but keeps none of the bytes", where)
+    # dispatch of read_file / write_file
+    for meth, ftype, want in (("read_file", "ASSEMBLY", "read_assembly_contents"), ("read_file", "BINARY", "read_binary_contents"), ("write_file", "BINARY", "write_binary_contents")):
+        f = C.methods.get(meth)
+        tv = ctx.env.get("SourceFileType.%s" % ftype)
+        if f is None or tv is None:
+            c.undecided("SourceFile.%s[%s]" % (meth, ftype), "not-found", "")
+            continue
+        env = dict(ctx.env)
+        env.update({"self.file_type": tv, "self.file_name": Desc("NAME"), "self.buffer": Desc("BUFFER")})
+        events, notes = [], []
+        workers = ("read_assembly_contents", "read_binary_contents", "write_binary_contents")
+        run_concrete(body_without_doc(f.node), env, events, notes, workers=workers, resolver=resolver)
+        calls = [e for e in events if e[0] == "call" and e[1] in ("self", "SourceFile", "cls") and e[2] in workers]
+        site = "SourceFile.%s[%s]" % (meth, ftype)
+        where = repo.loc(f, f.node)
+        problems = []
+        if [e[2] for e in calls] != [want]:
+            problems.append("calls %s, a %s source file needs %s" % ([e[2] for e in calls], ftype, want))
+        else:
+            a = calls[0][3]
+            if a[:1] != ["NAME"]:
+                problems.append("%s is given %s, not the object's file name" % (want, a[:1]))
+            if meth == "write_file" and a[1:2] != ["BUFFER"]:
+                problems.append("%s is given %s, not the object's buffer" % (want, a[1:2]))
+            if meth == "read_file" and show(env.get("self.buffer")) != "self.%s(NAME)" % want and show(env.get("self.buffer")) != "SourceFile.%s(NAME)" % want:
+                problems.append("the bytes read are not kept in self.buffer (it holds %s)" % show(env.get("self.buffer")))
+        if not problems:
+            c.ok(site, "%s(own name%s)" % (want, ", own buffer" if meth == "write_file" else "") , where)
+        elif notes:
+            c.undecided(site, "not-evaluable", "%s; %s" % (problems[0], "; ".join(notes))[:140], where)
+        else:
+            c.finding(site, problems[0][:100], "SourceFile.%s for a %s file: %s" % (meth, ftype, "; ".join(problems)), where)
+
+
+def show_(x):
+    from ..concrete import show
+    return show(x)
+
+
 def _kind_table(repo, fn):
     """{kind: class} from a constant sequence of (VirtualFileType.K, Class) pairs used by the function, or None"""
     for n in ast.walk(fn.node):
@@ -401,7 +823,36 @@ def vf4(ctx, c):
     eqt = g.find(lambda k, n: k == "test" and "virtual_file_type" in U(n) and "==" in U(n))
     ok = ok or (bool(eqt) and all(g.only_raises_after(t, False) for t in eqt))
     raises = g.find(lambda k, n: k == "raise")
-    if ok:
+    # decide by evaluating the raising test for every (requested kind, kind found) pair
+    table_verdict = None
+    kv = {k: ctx.env.get("VirtualFileType.%s" % k) for k in KINDS}
+    if all(v is not None for v in kv.values()):
+        from ..consteval import fold as _fold, NotConst as _NC
+        for n_ in ast.walk(ov_flat):
+            if isinstance(n_, ast.If) and "virtual_file_type" in U(n_.test) and n_.body and isinstance(n_.body[-1], ast.Raise) and not n_.orelse:
+                inner = {id(x.value) for x in ast.walk(n_.test) if isinstance(x, ast.Attribute)}
+                others = sorted({U(x) for x in ast.walk(n_.test) if isinstance(x, (ast.Name, ast.Attribute)) and id(x) not in inner
+                                 and U(x) != "self.virtual_file_type" and not U(x).startswith("VirtualFileType")})
+                if len(others) != 1:
+                    continue
+                wrong = []
+                try:
+                    for rq_name, rq in [("none", None)] + list(kv.items()):
+                        for fd_name, fd in kv.items():
+                            envt = dict(ctx.env)
+                            envt.update({"self.virtual_file_type": rq, others[0]: fd})
+                            raised = bool(_fold(n_.test, envt))
+                            if raised != (rq is not None and rq != fd):
+                                wrong.append((rq_name, fd_name, raised))
+                except _NC:
+                    continue
+                table_verdict = wrong
+    if table_verdict:
+        rq_name, fd_name, raised = table_verdict[0]
+        c.finding("open_virtual_file:kind-mismatch", "requested %s, found %s: %s" % (rq_name, fd_name, "refused" if raised else "accepted"),
+                  "open_virtual_file %s an existing %s file when a %s container was requested (%d of 12 request/content pairs are decided wrongly): an existing image of another kind "
+                  "must be refused, one of the same kind accepted" % ("refuses" if raised else "accepts", fd_name, rq_name, len(table_verdict)), where)
+    elif table_verdict == [] or ok:
         c.ok("open_virtual_file:kind-mismatch", "an existing file of another kind raises", where)
     elif not raises:
         c.finding("open_virtual_file:kind-mismatch", "no raise on kind mismatch",
@@ -869,4 +1320,4 @@ def vf8(ctx, c):
     c.floor("reader methods examined", n, 12)
 
 
-RULES = {"VF-8": vf8, "VF-1": vf1, "VF-2": vf2, "VF-3": vf3, "VF-4": vf4, "CLI-1": cli1, "CLI-3": cli3}
+RULES = {"VF-9": vf9, "CLI-5": cli5, "CLI-4": cli4, "VF-5": vf5, "VF-8": vf8, "VF-1": vf1, "VF-2": vf2, "VF-3": vf3, "VF-4": vf4, "CLI-1": cli1, "CLI-3": cli3}
